@@ -192,8 +192,73 @@ impl Response {
         }
     }
     pub fn parse_bytes(bytes: &[u8]) -> Result<Self, ::serde_bencode::Error> {
+        if bencode_nesting_too_deep(bytes) {
+            return Err(::serde_bencode::Error::InvalidValue(
+                "bencode nested too deeply".into(),
+            ));
+        }
+
         ::serde_bencode::from_bytes(bytes)
     }
+}
+
+/// Maximum nesting depth of bencode lists and dictionaries in responses
+///
+/// Valid responses nest at most three levels deep.
+const MAX_BENCODE_NESTING_DEPTH: usize = 32;
+
+/// Check if lists and dictionaries are nested deeper than any valid response
+/// requires
+///
+/// Deserialization recurses once per nesting level, so a response of a few
+/// kilobytes consisting of e.g. list start markers overflows the stack unless
+/// it is rejected beforehand. Malformed data is left for the parser to report.
+fn bencode_nesting_too_deep(bytes: &[u8]) -> bool {
+    let mut depth = 0usize;
+    let mut i = 0usize;
+
+    while let Some(byte) = bytes.get(i) {
+        match byte {
+            b'l' | b'd' => {
+                depth += 1;
+
+                if depth > MAX_BENCODE_NESTING_DEPTH {
+                    return true;
+                }
+
+                i += 1;
+            }
+            b'e' => {
+                depth = depth.saturating_sub(1);
+
+                i += 1;
+            }
+            // Integer: skip past terminating 'e'
+            b'i' => match bytes[i..].iter().position(|b| *b == b'e') {
+                Some(offset) => i += offset + 1,
+                None => return false,
+            },
+            // Byte string: skip length prefix, ':' and contents
+            b'0'..=b'9' => {
+                let mut len = 0usize;
+                let mut j = i;
+
+                while let Some(digit @ b'0'..=b'9') = bytes.get(j) {
+                    len = len.saturating_mul(10).saturating_add((digit - b'0') as usize);
+                    j += 1;
+                }
+
+                if bytes.get(j) != Some(&b':') {
+                    return false;
+                }
+
+                i = (j + 1).saturating_add(len);
+            }
+            _ => return false,
+        }
+    }
+
+    false
 }
 
 #[cfg(test)]
